@@ -105,7 +105,11 @@ func TestVerifC02TLS(t *testing.T) {
 			if walk%2 == 1 {
 				ws, rs, wire, note = srv, cli, ca.In, "server writes"
 			}
-			return &vfc02.ChanSession{W: ws, R: rs, Wire: wire, Note: note,
+			revWire := ca.In
+			if wire == ca.In {
+				revWire = cb.In
+			}
+			return &vfc02.ChanSession{W: ws, R: rs, Wire: wire, Note: note, RevW: rs, RevR: ws, RevWire: revWire,
 				Close: func() { ca.Close(); cb.Close() }}, nil
 		},
 	}
